@@ -89,6 +89,17 @@ VariableFieldSizeCalculator::calculator_state
       return NESTED_VARIABLE_GROUPS;
 
     unsigned int block_size = group_descriptor->BlockSize();
+    if (block_size == 0) {
+      // The blocks carry no data (an empty group, or only zero length fields)
+      // so the number of blocks can't be derived from the data length.
+      if (bytes_remaining)
+        return TOO_LARGE;
+      if (group_descriptor->MinBlocks())
+        return TOO_SMALL;
+      *variable_field_size = 0;
+      return VARIABLE_GROUP;
+    }
+
     if (group_descriptor->LimitedSize() &&
         bytes_remaining > block_size * group_descriptor->MaxBlocks())
       return TOO_LARGE;
